@@ -82,7 +82,12 @@ class FakeOS:
         self._world = world
 
     def stat(self, path, *a, **k):
+        if k.get("follow_symlinks") is False:
+            return self._world.lstat(path)
         return self._world.stat(path)
+
+    def lstat(self, path, *a, **k):
+        return self._world.lstat(path)
 
     def __getattr__(self, name):
         import os as _os
@@ -386,6 +391,9 @@ class SgioReplug(_DeviceUnit):
     def cases(self, tier):
         steps = 2 if tier == "quick" else 3
         cs = [{"detect": d, "readwrite": rw, "steps": k} for d in (True, False) for rw in (False, True) for k in range(1, steps + 1)]
+        # the device path is a symbolic link (/dev/disk/by-id/..., /dev/cdrom): the node it resolves to is replaced or
+        # removed, the link itself stays
+        cs += [{"detect": True, "readwrite": rw, "steps": k, "link": True} for rw in (False, True) for k in range(1, steps + 1)]
         # the inductive step (any history length): one execute() from an ARBITRARY state satisfying the representation
         # invariant INV = (current handle open and opened on the recorded inode) or (current handle closed, by a failed
         # re-open; recorded inode arbitrary).  __init__ establishes INV (init clauses), every step re-establishes it
@@ -394,7 +402,8 @@ class SgioReplug(_DeviceUnit):
         return cs
 
     def case_id(self, case):
-        return "detect=%s,readwrite=%s,steps=%s%s" % (case["detect"], case["readwrite"], case["steps"], ",from-any-state-satisfying-the-invariant" if case.get("from") else "")
+        return "detect=%s,readwrite=%s,steps=%s%s%s" % (case["detect"], case["readwrite"], case["steps"], ",from-any-state-satisfying-the-invariant" if case.get("from") else "",
+                                                      ",path-is-a-symlink" if case.get("link") else "")
 
     def inputs(self, case):
         d = {"ino0": U(32), "status": U(8)}
@@ -410,8 +419,17 @@ class SgioReplug(_DeviceUnit):
         w.present[PATH] = True
         w.inode[PATH] = a.ino0
         w.sense = bytes([0x70, 0, 5, 0, 0, 0, 0, 10, 0, 0, 0, 0, 0x24, 0, 0, 0, 0, 0])
+        if case.get("link"):
+            w.link_inode[PATH] = 777001
+        self.dev = None
         with world_installed(w):
-            dev = X.call(devmod().SCSIDevice, PATH, case["readwrite"], case["detect"])
+            try:
+                dev = X.call(devmod().SCSIDevice, PATH, case["readwrite"], case["detect"])
+            except V.EngineSignal:
+                raise
+            except Exception as ex:
+                self.init_error = ex
+                return None
             self.dev = dev
             self.h0 = dev._file
             self.open_trace = list(w.trace)
@@ -446,10 +464,13 @@ class SgioReplug(_DeviceUnit):
             return None
 
     def ensures(self, case, a, out, X):
-        w, dev, h0 = self.world, self.dev, self.h0
+        if getattr(self, "dev", None) is None and out.kind == "return":
+            yield "C15", "init:device-opens-on-an-existing-node (raised %s)" % type(getattr(self, "init_error", None)).__name__, False
+            return
         if out.kind != "return":
             yield "C15", "history-completes (%s)" % out.describe()[:80], False
             return
+        w, dev, h0 = self.world, self.dev, self.h0
         # --- the open performed by __init__
         opens = [t for t in self.open_trace if t[0] == "open"]
         yield "C15", "init:one-open", len(opens) == 1
